@@ -7,7 +7,7 @@ from . import dispatch as D, convert as C
 from .c08 import keyword_paths, ok_value, C_bytes
 
 LEVEL = "other"
-TECHNIQUE = "guard/rounding analysis of the 10 float-fallback closures: idiom shape match (range guards monotone in the parsed value; truncate; exact remainder; checked +-1) plus exact evaluation of the closure's expression DAG, in the intermediate IEEE format (rational arithmetic, round-to-nearest-even), at the boundary floats of the required-accept and must-reject intervals and at NaN/infinities/zero/subnormals; FDAI tables for fast path, error map, non-decimal narrowing, keywords and element types; intermediate-precision check; NR1 value tables: each integer conversion folded on literals around its type's limits with lexical-core's integer parser modelled as audited (it lets literals with the maximal digit count wrap) and the integer TryFrom by contract; typed echo tables (sa/rules/echotable.py, witness/echo): `Node::run` folded end to end on messages to a witness command that pulls one parameter of the type (`next_data::<T>()` / `next_optional_data`) and writes it back - lexer, dispatcher, Parameters, the conversion, the ResponseData writer and the formatter analysed in place, lexical-core's parsers / integer writer by contract - the answer compared with a reference written from the property's statement: all ten integer types on NR1 / NR2 / NR3 literals at and around every bound and half-integer, non-decimal forms, keywords, look-alikes, suffixed and non-numeric elements, optional parameters; the lexer's non-decimal element table; the typed pulls hand a refused literal on as the unit's error"
+TECHNIQUE = "guard/rounding analysis of the 10 float-fallback closures: idiom shape match (range guards monotone in the parsed value; truncate; exact remainder; checked +-1) plus exact evaluation of the closure's expression DAG, in the intermediate IEEE format (rational arithmetic, round-to-nearest-even), at the boundary floats of the required-accept and must-reject intervals and at NaN/infinities/zero/subnormals; FDAI tables for fast path, error map, non-decimal narrowing, keywords and element types; intermediate-precision check; NR1 value tables: each integer conversion folded on literals around its type's limits with lexical-core's integer parser modelled as audited (it lets literals with the maximal digit count wrap) and the integer TryFrom by contract; typed echo tables (sa/rules/echotable.py, witness/echo): `Node::run` folded end to end on messages to a witness command that pulls one parameter of the type (`next_data::<T>()` / `next_optional_data`) and writes it back - lexer, dispatcher, Parameters, the conversion, the ResponseData writer and the formatter analysed in place, lexical-core's parsers / integer writer by contract - the answer compared with a reference written from the property's statement: all ten integer types on NR1 / NR2 / NR3 literals at and around every bound and half-integer, non-decimal forms, keywords, look-alikes, suffixed and non-numeric elements, optional parameters; the lexer's non-decimal element table; the typed pulls hand a refused literal on as the unit's error; where the fallback's guards are organised differently the conversion is folded end to end on the boundary values and a dense sample instead (R07.1 by folding)"
 LEVEL_TEXT = "Per target type the rule (1) matches the shape of the fallback (every range guard is a comparison of v or v-const with a constant, hence monotone in v; the result is trunc(v), corrected by checked +-1 under comparisons of the exact remainder v - trunc(v) with +-0.5), and (2) evaluates that expression DAG exactly, with IEEE rounding in the intermediate format, at the endpoints of the intervals the property fixes: just inside/outside (MIN-0.5, MAX+0.5), MIN-1, MAX+1, the half-integer neighbours of 0, 1 and of 2^(p-1), zero, subnormals, NaN and infinities - monotonicity extends the endpoint verdicts to the intervals. The remaining clauses (fast path, error mapping, non-decimal narrowing, keywords, element types, precision of the intermediate) are decided by FDAI tables."
 LEVEL_NOTE = "Not decided: digit-level correctness of lexical-core's parsers (trusted); exact ties (either neighbour allowed by the property). The interpolation between evaluated endpoints rests on the checked monotone shape of the guards. Trusted: rustc MIR, exact rational model of IEEE-754 add/sub/compare/convert (sa/ieee.py)."
 
